@@ -167,7 +167,11 @@ func (vc *FuncVC) solveSet(obs []*Oblig, cfg solverCfg) {
 			defer wg.Done()
 			sem <- struct{}{}
 			defer func() { <-sem }()
-			script := buildScript(prelude, decls, chunk, cfg.timeoutMs)
+			incTimeout := cfg.timeoutMs
+			if incTimeout > 2500 {
+				incTimeout = 2500 // whatever the incremental pass cannot settle quickly is re-raced one by one with the full timeout
+			}
+			script := buildScript(prelude, decls, chunk, incTimeout)
 			t0 := time.Now()
 			ctx, cancel := context.WithTimeout(context.Background(), time.Duration(cfg.timeoutMs*len(chunk)+30000)*time.Millisecond)
 			out, _ := runSolver(ctx, "z3-new", []string{"-in"}, script)
